@@ -138,6 +138,8 @@ pub struct StructReport {
     pub outputs_len: usize,
     pub table_sampled: bool,
     pub table_done: bool,
+    pub table_truncated: bool,
+    pub product_pairs: usize,
 }
 
 const MAXV: usize = 6;
@@ -431,24 +433,81 @@ pub fn check_structure<V: Copy>(pma: &Pma<V>, trie: Option<&SymTrie>, opts: &Opt
         shape_ok = false;
     }
 
-    if kind != MatchKind::Standard || !shape_ok || !r.closure.is_empty() || !r.ranking.is_empty() {
+    let _ = shape_ok;
+    if kind != MatchKind::Standard || !r.closure.is_empty() || !r.ranking.is_empty() {
         return r;
     }
 
-    // ---- transition function and output lists (Standard) -------------------------------------
+    // ---- behavioural equivalence with the textbook automaton (Standard) ----------------------
+    // Product walk: start in (root, root); for every symbol step the implementation's own
+    // transition function and the textbook delta; every pair reached must agree on the output list
+    // (whole list, or its head only). This is a bisimulation up to outputs: it demands exactly what
+    // the searches can observe and nothing about where states live, how many slots represent one
+    // string, or whether harmless extra states exist. A disagreement comes with a witness haystack.
     let nsym = symbols.len() as u64;
     let full = (trie.len() as u64) * nsym <= opts.transition_cap;
     r.table_sampled = !full;
-    for t in 0..trie.len() as u32 {
-        let s = map[t as usize];
-        if s == u32::MAX {
-            continue;
+    let mut pairs: Vec<(u32, u32, u32, u32)> = vec![(0, 0, u32::MAX, 0)]; // (slot, trie node, parent pair, symbol)
+    let mut seen: HashSet<(u32, u32)> = HashSet::new();
+    seen.insert((0, 0));
+    let pair_cap = 4 * trie.len() + 1024;
+    let witness = |pairs: &Vec<(u32, u32, u32, u32)>, mut k: usize, width: &dyn Fn(u32) -> Vec<u8>| -> String {
+        let mut syms: Vec<u32> = Vec::new();
+        while pairs[k].2 != u32::MAX {
+            syms.push(pairs[k].3);
+            k = pairs[k].2 as usize;
+        }
+        syms.reverse();
+        let mut bytes: Vec<u8> = Vec::new();
+        for sy in syms {
+            bytes.extend(width(sy));
+        }
+        format!("{}", bytes.escape_ascii())
+    };
+    let charwise = pma.mapper().is_some();
+    let enc = move |sy: u32| -> Vec<u8> {
+        if charwise {
+            let mut b = [0u8; 4];
+            char::from_u32(sy).map_or(vec![b'?'], |c| c.encode_utf8(&mut b).as_bytes().to_vec())
+        } else {
+            vec![sy as u8]
+        }
+    };
+    let mut k = 0usize;
+    while k < pairs.len() {
+        let (slot, t, _, _) = pairs[k];
+        // outputs of this pair
+        let exp = trie.out(t);
+        let st = pma.state(slot).expect("validated");
+        let mut got: Vec<(u32, u32)> = Vec::new();
+        let mut pos = st.output_pos;
+        while pos != 0 && got.len() <= olen {
+            let o = outputs[(pos - 1) as usize];
+            got.push((val(o.value), o.length));
+            pos = o.parent;
+        }
+        r.output_lists_checked += 1;
+        let differs = if opts.outputs_head_only { got.first() != exp.first() } else { got != exp };
+        if differs {
+            push(
+                &mut r.table,
+                format!(
+                    "after reading the haystack b\"{}\" the automaton is in slot {slot} whose output list (value,len) is {:?}; the textbook Aho-Corasick automaton reports {:?} there{}",
+                    witness(&pairs, k, &enc),
+                    &got[..got.len().min(8)],
+                    &exp[..exp.len().min(8)],
+                    if opts.outputs_head_only { " (only the head is compared)" } else { "" }
+                ),
+            );
+            if r.table.len() >= MAXV {
+                break;
+            }
+            k += 1;
+            continue; // do not explore below a pair that already disagrees
         }
         let syms: Vec<u32> = if full {
             symbols.iter().map(|&(sy, _)| sy).collect()
         } else {
-            // symbols with an edge somewhere on the fail chain of t, plus unmapped representatives
-            // and a deterministic spread of the others
             let mut v: Vec<u32> = Vec::new();
             let mut u = t;
             loop {
@@ -466,43 +525,21 @@ pub fn check_structure<V: Copy>(pma: &Pma<V>, trie: Option<&SymTrie>, opts: &Opt
             v
         };
         for sym in syms {
-            let exp = map[trie.delta(t, sym) as usize];
-            // closure has passed for this automaton: every index the loop can form is in range
-            let got = unsafe { pma.next_state(s, sym) };
+            // closure and ranking have passed for this automaton: every index the loop can form is
+            // in range and every fail chain ends
+            let s2 = unsafe { pma.next_state(slot, sym) };
+            let t2 = trie.delta(t, sym);
             r.transitions_checked += 1;
-            if got != exp {
-                push(
-                    &mut r.table,
-                    format!(
-                        "transition from state {s} (trie node {t}, depth {} bytes) on symbol {sym:#x}: automaton goes to slot {got}, textbook Aho-Corasick goes to slot {exp}",
-                        trie.depth_bytes[t as usize]
-                    ),
-                );
+            if seen.len() < pair_cap && seen.insert((s2, t2)) {
+                pairs.push((s2, t2, k as u32, sym));
             }
         }
-        // output list
-        let exp = trie.out(t);
-        let st = pma.state(s).expect("validated");
-        let mut got: Vec<(u32, u32)> = Vec::new();
-        let mut pos = st.output_pos;
-        while pos != 0 && got.len() <= olen {
-            let o = outputs[(pos - 1) as usize];
-            got.push((val(o.value), o.length));
-            pos = o.parent;
-        }
-        r.output_lists_checked += 1;
-        let differs = if opts.outputs_head_only { got.first() != exp.first() } else { got != exp };
-        if differs {
-            push(
-                &mut r.table,
-                format!(
-                    "output list of state {s} (trie node {t}): automaton (value,len)={:?}, expected suffix patterns longest-first {:?}",
-                    &got[..got.len().min(8)],
-                    &exp[..exp.len().min(8)]
-                ),
-            );
-        }
+        k += 1;
     }
+    if seen.len() >= pair_cap {
+        r.table_truncated = true;
+    }
+    r.product_pairs = pairs.len();
     r.table_done = true;
     r
 }
